@@ -22,7 +22,11 @@ RULE = ("random programs over nested let (sequential bindings, destructuring tar
         "(functions), at module and function level; each compared with its alpha-renamed let-free "
         "twin compiled by hy. Non-trivial = some user name has >= 2 binders, one of them a let "
         "binder, and the program has a closure reading a let variable or an assignment to a let "
-        "variable; distinct by program text.")
+        "variable; distinct by program text. Sub-workload transparent-let (every third case): programs "
+        "with defn / defclass / import :as of let-bound names, closures, setv and reads, each compared "
+        "with up to 3 copies in which a run of consecutive body forms of a let / fn / module body is "
+        "wrapped in (let [FRESH 0] ...); non-trivial there = a definition of a let-bound name followed "
+        "by a reference to it.")
 FLOOR = {"quick": 800, "thorough": 800}
 BUDGET = {"quick": 26, "thorough": 480}
 CASE_TIMEOUT = 20
@@ -36,6 +40,9 @@ ANCHORS = ["hy.scoping:ScopeLet.define",
 ASSUMPTIONS = [
     "hy's non-let machinery (setv, fn, defn, lfor, for, if, do) is shared by both sides; only "
     "renaming errors can make them differ",
+    "transparent-let: a let binding a name that occurs nowhere in the program is an identity wrapper "
+    "around a run of body forms (lexical scoping); no meaning is assumed for defn/defclass/import of a "
+    "let-bound name beyond that",
     "the resolver of hv/scope_ir.py encodes the documented let rules (docs/api.rst) and Python's "
     "rules for every other binder; the first iterable of a comprehension belongs to the enclosing scope",
 ]
@@ -96,11 +103,11 @@ class Ctx:
 
 
 class Gen:
-    def __init__(self, rng, maxdepth):
+    def __init__(self, rng, maxdepth, nodes=15):
         self.r = rng
         self.lid = 0
         self.const = 10
-        self.budget = 15
+        self.budget = nodes
         self.maxdepth = maxdepth
 
     def k(self):
@@ -312,8 +319,8 @@ class Gen:
 SNAP_RAW = S.Raw("(SNAP (locals))")
 
 
-def build(rng, mode, maxdepth):
-    g = Gen(rng, maxdepth)
+def build(rng, mode, maxdepth, nodes=15):
+    g = Gen(rng, maxdepth, nodes)
     ctx = Ctx()
     ctx.fn_free = set(FNS)
     body = []
@@ -398,14 +405,207 @@ def normalise_first_iter(mod):
     return {"hy": S.to_hy(m), "twin": S.to_hy(m, True)}
 
 
+# ------------------------------------------- sub-workload: transparent let
+#
+# defn / defclass / import of a let-bound name are carved out of the twin
+# oracle above (the docs do not say what later references mean).  What lexical
+# scoping does justify, whatever that meaning is: wrapping a body form (or a run
+# of consecutive body forms) of a let / fn / module body in `(let [FRESH 0] ...)`,
+# FRESH being used nowhere in the program, cannot change the program.  Both
+# variants are compiled by hy; value, trace and final non-let names must agree.
+#
+# Tree: a form is a string or ["let", binds, body] | ["defn", name, body] |
+# ["fnset", name, body] | ["if", test, body, body]; bodies are lists of forms.
+
+FRESH = "zz9"
+HNAMES = ["a", "b", "h"]
+IMPORTS = ["math", "os.path", "itertools"]
+
+
+class TGen:
+    def __init__(self, rng, maxdepth, nodes):
+        self.r = rng
+        self.maxdepth = maxdepth
+        self.budget = nodes
+        self.lid = 0
+        self.const = 20
+        self.nclos = 0
+        self.hoists = []        # (kind, name let-bound at that point?)
+        self.refs_after_hoist = 0
+        self.hoisted = set()
+
+    def site(self):
+        self.lid += 1
+        return self.lid
+
+    def K(self):
+        self.const += 1
+        return self.const
+
+    def use(self, n):
+        if n in self.hoisted:
+            self.refs_after_hoist += 1
+        return n
+
+    def hoist(self, let_vis):
+        r = self.r
+        n = r.choice(sorted(let_vis)) if let_vis and r.random() < 0.85 else r.choice(HNAMES)
+        kind = r.choice(["defn", "defn", "defclass", "import"])
+        self.hoists.append((kind, n in let_vis))
+        if n in let_vis:
+            self.hoisted.add(n)
+        if kind == "defn":
+            o = r.choice(HNAMES)
+            return ["defn", n, [f"(L {self.site()} {o})" if o != n else f"(L {self.site()} 0)", str(self.K())]]
+        if kind == "defclass":
+            return f"(defclass {n} [] (setv v {self.K()}))"
+        return f"(import {r.choice(IMPORTS)} :as {n})"
+
+    def body(self, depth, let_vis, closures, n):
+        out = []
+        for _ in range(n):
+            out.append(self.form(depth, let_vis, closures))
+        return out
+
+    def form(self, depth, let_vis, closures):
+        r = self.r
+        self.budget -= 1
+        deep = depth >= self.maxdepth or self.budget <= 0
+        ch = [("log", 4), ("set", 2.5), ("hoist", 3.5), ("callit", 2)]
+        if closures:
+            ch.append(("callclos", 2.5))
+        if not deep:
+            ch += [("let", 5), ("clos", 2.5), ("if", 1), ("fnbody", 1)]
+        k = r.choices([c[0] for c in ch], [c[1] for c in ch])[0]
+        if k == "log":
+            return f"(L {self.site()} {self.use(r.choice(HNAMES))})"
+        if k == "set":
+            return f"(setv {self.use(r.choice(HNAMES))} {self.K()})"
+        if k == "hoist":
+            return self.hoist(let_vis)
+        if k == "callit":
+            n = self.use(r.choice(HNAMES))
+            return f"(when (callable {n}) (L {self.site()} ({n})))"
+        if k == "callclos":
+            return f"(L {self.site()} ({r.choice(closures)}))"
+        if k == "let":
+            names = r.sample(HNAMES, r.choices([1, 2], [3, 2])[0])
+            binds = "[" + " ".join(f"{n} {self.K()}" for n in names) + "]"
+            return ["let", binds, self.body(depth + 1, let_vis | set(names), list(closures), r.randint(2, 4))]
+        if k == "clos":
+            self.nclos += 1
+            g = f"g{self.nclos}"
+            n = self.use(r.choice(HNAMES))
+            node = ["fnset", g, [f"(L {self.site()} {n})"]]
+            closures.append(g)
+            return node
+        if k == "if":
+            t = f"(< (L {self.site()} {self.K()}) {self.K()})"
+            return ["if", t, self.body(depth + 1, let_vis, list(closures), 1),
+                    self.body(depth + 1, let_vis, list(closures), 1)]
+        # a nested function with its own body, called at once
+        self.nclos += 1
+        g = f"g{self.nclos}"
+        closures.append(g)
+        return ["fnset", g, self.body(depth + 1, set(let_vis), list(closures[:-1]), r.randint(1, 3))
+                + [str(self.K())]]
+
+
+def t_render(f):
+    if isinstance(f, str):
+        return f
+    k = f[0]
+    B = lambda body: "".join(" " + t_render(x) for x in body)
+    if k == "let":
+        return f"(let {f[1]}{B(f[2])})"
+    if k == "defn":
+        return f"(defn {f[1]} []{B(f[2])})"
+    if k == "fnset":
+        return f"(setv {f[1]} (fn []{B(f[2])}))"
+    if k == "if":
+        return f"(if {f[1]} (do{B(f[2])}) (do{B(f[3])}))"
+    raise ValueError(k)
+
+
+def t_bodies(body, out, wrappable=True):
+    """all let / fn / module bodies (lists) in which a run may be wrapped"""
+    if wrappable:
+        out.append(body)
+    for f in body:
+        if isinstance(f, list):
+            if f[0] in ("let", "defn", "fnset"):
+                t_bodies(f[2], out, True)
+            elif f[0] == "if":
+                t_bodies(f[2], out, False)
+                t_bodies(f[3], out, False)
+
+
+def t_has_hoist(f):
+    if isinstance(f, str):
+        return f.startswith(("(defclass", "(import"))
+    if f[0] == "defn" and not f[1].startswith("main"):
+        return True
+    return False
+
+
+def t_program(rng, tier):
+    import copy as _copy
+    g = TGen(rng, 3 if tier != "thorough" else 4, 16 if tier != "thorough" else 26)
+    mode = "module" if rng.random() < 0.5 else "function"
+    prelude = [f"(setv {n} {g.K()})" for n in HNAMES]
+    body = g.body(0, set(), [], rng.randint(3, 5))
+    tail_reads = [f"(L {g.site()} {g.use(n)})" for n in HNAMES]
+    local_init = [f"(setv {n} {g.K()})" for n in HNAMES]   # function mode: main's locals start bound
+
+    def whole(b):
+        if mode == "module":
+            return "\n".join(prelude + [t_render(f) for f in b + tail_reads])
+        return ("\n".join(prelude) + "\n(defn main [] " + " ".join(local_init)
+                + "".join(" " + t_render(f) for f in b + tail_reads)
+                + " (SNAP (locals)))\n(setv R (main))")
+
+    base = whole(body)
+    variants = []
+    for _ in range(3):
+        b2 = _copy.deepcopy(body)
+        bodies = []
+        t_bodies(b2, bodies)
+        bodies = [b for b in bodies if b]
+        # prefer a body that directly holds a defn/defclass/import
+        pref = [b for b in bodies if any(t_has_hoist(f) for f in b)]
+        tgt = rng.choice(pref) if pref and rng.random() < 0.7 else rng.choice(bodies)
+        idx = [i for i, f in enumerate(tgt) if t_has_hoist(f)]
+        if idx and rng.random() < 0.75:
+            i = rng.choice(idx)
+            lo = rng.randint(max(0, i - 1), i)
+            hi = rng.randint(i + 1, min(len(tgt), i + 2))
+        else:
+            lo = rng.randrange(len(tgt))
+            hi = rng.randint(lo + 1, len(tgt))
+        # a fn body's last form is its return value: a let returns its last form too
+        tgt[lo:hi] = [["let", f"[{FRESH} 0]", tgt[lo:hi]]]
+        text = whole(b2)
+        if text != base and text not in variants:
+            variants.append(text)
+    return {"kind": "transparent", "hy": base, "variants": variants, "mode": mode,
+            "hoists": sorted({h[0] for h in g.hoists}),
+            "hoist_of_let_name": any(h[1] for h in g.hoists),
+            "refs_after_hoist": g.refs_after_hoist}
+
+
 def cases(seed, tier, shard, nshards):
     i = 0
-    maxdepth = 4
+    maxdepth = 4 if tier != "thorough" else 5
     while True:
         rng = rng_for(seed, ID, shard, i)
         i += 1
+        if i % 3 == 0:
+            case = t_program(rng, tier)
+            if case["variants"] and case["hoists"]:
+                yield case
+            continue
         mode = "module" if rng.random() < 0.5 else "function"
-        mod = build(rng, mode, maxdepth)
+        mod = build(rng, mode, maxdepth, 15 if tier != "thorough" else 24)
         res = S.resolve(mod)
         if res.carve:
             continue
@@ -473,7 +673,34 @@ def compare(a, b):
     return None
 
 
+def run_transparent(case):
+    a = run_text(case["hy"])
+    classes = ["transparent-let", "mode:" + case["mode"]] + ["hoist:" + h for h in case["hoists"]]
+    if case.get("hoist_of_let_name"):
+        classes.append("hoist-of-let-bound-name")
+    if a["exc"]:
+        classes.append("base-raises:" + a["exc"][1])
+    events = len(a["trace"])
+    nt = bool(case.get("hoist_of_let_name") and case.get("refs_after_hoist"))
+    res = {"ok": True, "nontrivial": nt, "classes": classes, "n": len(case["variants"]),
+           "nt_keys": list(case["variants"]) if nt else [],
+           "sample": {"hy": case["hy"], "wrapped": case["variants"][0]}}
+    for v in case["variants"]:
+        b = run_text(v)
+        events += len(b["trace"])
+        why = compare(a, b)
+        if why is not None:
+            why = why.replace("let program", "program").replace("let-free twin", "same program with a run of "
+                              "body forms wrapped in (let [%s 0] ...)" % FRESH)
+            res.update(ok=False, why=f"{why}\n--- program:\n{case['hy']}\n--- wrapped:\n{v}")
+            break
+    res["events"] = events
+    return res
+
+
 def run_case(case):
+    if case.get("kind") == "transparent":
+        return run_transparent(case)
     a = run_text(case["hy"])
     b = run_text(case["twin"])
     st = case.get("stats", {})
